@@ -19,7 +19,7 @@ def sh(cmd, **kw):
 
 def main(argv):
     d, pids = os.path.abspath(argv[0]), argv[1:]
-    name = os.path.basename(os.path.dirname(os.path.dirname(d))) + os.path.basename(os.path.dirname(d)) + "-" + os.path.basename(d)
+    name = os.path.basename(os.path.dirname(os.path.dirname(d))).replace("-out","") + os.path.basename(os.path.dirname(d)) + "-" + os.path.basename(d)
     wt = f"/tmp/ts-{name}"
     sh(f"git -C /repo worktree remove --force {wt}")
     sh(f"git -C /repo worktree add --detach {wt} HEAD")
